@@ -1,0 +1,41 @@
+//go:build verif
+
+package lite
+
+import (
+	"github.com/go-logr/logr"
+	"go.minekube.com/gate/pkg/edition/java/lite/config"
+	"go.minekube.com/gate/pkg/edition/java/netmc"
+	"go.minekube.com/gate/pkg/edition/java/proto/packet"
+)
+
+// Verification hooks for property C29 (add-only, no logic: thin forwarding functions).
+
+// C29Match forwards to match.
+func C29Match(s, pattern string) bool { return match(s, pattern) }
+
+// C29MatchWithGroups forwards to matchWithGroups.
+func C29MatchWithGroups(s, pattern string) (bool, []string) { return matchWithGroups(s, pattern) }
+
+// C29SubstituteBackendParams forwards to substituteBackendParams.
+func C29SubstituteBackendParams(template string, groups []string) string {
+	return substituteBackendParams(template, groups)
+}
+
+// C29FindRoute forwards to findRoute and returns the parts the check observes.
+func C29FindRoute(
+	routes []config.Route,
+	log logr.Logger,
+	client netmc.MinecraftConn,
+	handshake *packet.Handshake,
+	strategyManager *StrategyManager,
+) (route *config.Route, routeHost string, next func() (string, bool), err error) {
+	_, _, route, routeHost, nextBackend, err := findRoute(routes, log, client, handshake, strategyManager)
+	if nextBackend != nil {
+		next = func() (string, bool) {
+			addr, _, ok := nextBackend()
+			return addr, ok
+		}
+	}
+	return route, routeHost, next, err
+}
